@@ -95,3 +95,163 @@ Proof.
     + rewrite H1 in Hc. cbn in Hc. discriminate.
     + rewrite H2 in Hi. destruct Hi.
 Qed.
+
+(* ---------------------------------------------------------------- preservation *)
+Lemma step_inv fx t s s' : Inv s -> step fx t s = Some s' -> Inv s'.
+Proof.
+  intros I Hs. unfold step in Hs.
+  destruct (lget (ths s) t) as [th|] eqn:Hget; [|discriminate].
+  destruct (tstep fx (sh s) th) as [[sh' th']|] eqn:Hstep; [|discriminate].
+  inversion Hs; subst s'; clear Hs.
+  assert (Hin : In (t, th) (ths s)) by (apply lget_In; exact Hget).
+  assert (HL : Local (sh s) th) by (eapply inv_local; eauto).
+  assert (HD := fun i => delta fx _ _ _ _ i Hstep HL).
+  assert (Hsum := fun f => tsum_lset f (ths s) t th' th Hget).
+  assert (Hin' : In (t, th') (lset (ths s) t th')) by (apply lget_In, lget_lset_same).
+  assert (Hsplit : forall u x, In (u, x) (lset (ths s) t th') -> x = th' \/ In (u, x) (ths s)).
+  { intros u x H. destruct (In_lset _ _ _ _ _ H) as [E|E]; [left; congruence | right; exact E]. }
+  assert (Hkeep : forall u x, In (u, x) (ths s) -> x = th \/ In (u, x) (lset (ths s) t th')).
+  { intros u x H. destruct (Nat.eq_dec u t) as [->|Hne].
+    - left. assert (E := NoDup_In_lget _ _ _ (i_nodup s I) H). congruence.
+    - right. apply In_lset_other; auto. }
+  assert (Hlen := step_len _ _ _ _ _ Hstep).
+  assert (HME := step_map_effect _ _ _ _ _ Hstep).
+  assert (Hw' : forall i, tsum (th_w i) (lset (ths s) t th') = b2n (e_w (eget (s_ents sh') i))).
+  { intros i. destruct (HD i) as (D1 & _). assert (E := i_w s I i). specialize (Hsum (th_w i)). lia. }
+  assert (Hr' : forall i, Z.of_nat (tsum (th_r i) (lset (ths s) t th')) = e_rd (eget (s_ents sh') i)).
+  { intros i. destruct (HD i) as (_ & D2 & _). assert (E := i_r s I i). specialize (Hsum (th_r i)). lia. }
+  assert (Hf' : forall i, Z.of_nat (tsum (th_ref i) (lset (ths s) t th')) = e_ref (eget (s_ents sh') i)).
+  { intros i. destruct (HD i) as (_ & _ & D3 & _). assert (E := i_ref s I i). specialize (Hsum (th_ref i)). lia. }
+  (* nobody mentions an entry id that does not exist yet *)
+  assert (Hfresh : forall u x k, In (u, x) (ths s) -> ~ mentions x k (length (s_ents (sh s)))).
+  { intros u x k Hx Hm. destruct (mentions_ref _ _ _ Hm) as [Hp|Hp].
+    - assert (H := ref_pos_of_thread _ _ _ _ I Hx Hp). rewrite eget_out in H by lia. cbn in H. lia.
+    - assert (H := i_clean s I _ _ _ _ Hx Hp). lia. }
+  constructor; cbn [ths sh].
+  - rewrite (lset_fst _ _ _ _ Hget). apply (i_nodup s I).
+  - exact Hw'.
+  - exact Hr'.
+  - exact Hf'.
+  - (* i_wh *)
+    intros i Hpos. destruct (HD i) as (_ & _ & _ & [D4|(D4 & D5)]); [exact D4|].
+    assert (Hold : (0 < tsum (th_wh i) (ths s))%nat) by (specialize (Hsum (th_wh i)); lia).
+    assert (Hrd := i_wh s I i Hold).
+    assert (Hwle : (tsum (th_wh i) (ths s) <= tsum (th_w i) (ths s))%nat)
+      by (apply tsum_le; intros; apply th_wh_le_w).
+    assert (Hwb := i_w s I i).
+    destruct D5 as [D5|[D5|D5]].
+    + lia.
+    + rewrite D5 in Hwb. cbn [b2n] in Hwb. lia.
+    + destruct HL as (_ & Lr & _). specialize (Lr i). lia.
+  - (* i_mapwf *)
+    intros k e Hm. destruct HME as [Hmap _ _ | w k1 Hnone Hmap _ Hents _ _ _ | k1 e1 _ _ Hmap _ _].
+    + rewrite Hmap in Hm. assert (H := i_mapwf s I _ _ Hm). lia.
+    + rewrite Hmap in Hm. cbn [mget] in Hm. rewrite Hents, app_length. cbn [length].
+      destruct (k1 =? k); [inversion Hm; lia|]. assert (H := i_mapwf s I _ _ Hm). lia.
+    + rewrite Hmap in Hm. destruct (Z.eq_dec k k1) as [->|Hne]; [rewrite mget_mrem_same in Hm; discriminate|].
+      rewrite (mget_mrem_other _ _ _ Hne) in Hm. assert (H := i_mapwf s I _ _ Hm). lia.
+  - (* i_clean *)
+    intros u x k e Hx Hpc. destruct (Hsplit _ _ Hx) as [->|Hold].
+    + destruct (step_clean _ _ _ _ _ Hstep _ _ Hpc) as (Hp & _).
+      assert (H : (e < length (s_ents (sh s)))%nat).
+      { eapply ref_in_range; eauto. unfold th_ref. rewrite Hp. cbn [pc_ref on]. rewrite Nat.eqb_refl. lia. }
+      lia.
+    + assert (H := i_clean s I _ _ _ _ Hold Hpc). lia.
+  - (* i_key *)
+    intros k e Hm u x k' Hx Hmen.
+    destruct HME as [Hmap _ _ | w k1 Hnone Hmap _ Hents Hpc' Hpg' Hpk | k1 e1 Hpc _ Hmap _ _].
+    + rewrite Hmap in Hm.
+      assert (Hold : forall u x, In (u, x) (ths s) -> mentions x k' e -> k' = k) by (intros; eapply (i_key s I); eauto).
+      destruct (Hsplit _ _ Hx) as [->|Hx']; [|eauto].
+      destruct (step_mentions _ _ _ _ _ Hstep _ _ Hmen) as [Hm'|(w & _ & _ & Hm')]; [eauto|].
+      rewrite Hmap in Hm'.
+      (* two bindings of the same entry: its page is determined by whoever keeps it alive *)
+      destruct (i_live s I _ _ Hm) as [Hpos|(v & y & Hy & Hc)].
+      * rewrite <- (i_ref s I e) in Hpos.
+        destruct (tsum_pos_In (th_ref e) (ths s)) as (v & y & Hy & Hp); [lia|].
+        assert (Hmy : exists k2, mentions y k2 e).
+        { unfold th_ref in Hp. destruct (th_pc y) eqn:Ey; cbn [pc_ref on] in Hp;
+            try (destruct (Nat.eqb_spec e0 e); [subst; eexists; left; rewrite Ey; reflexivity|]);
+            cbn in Hp;
+            (destruct (gcount_pos_In (gref e) (th_pg y)) as (g & Hg1 & Hg2); [lia|];
+             exists (g_k g); right; exists g; repeat split; auto; apply Nat.eqb_eq; exact Hg2). }
+        destruct Hmy as (k2 & Hk2).
+        assert (E1 := i_key s I _ _ Hm _ _ _ Hy Hk2). assert (E2 := i_key s I _ _ Hm' _ _ _ Hy Hk2). congruence.
+      * assert (Hk2 : mentions y k e) by (left; rewrite Hc; reflexivity).
+        assert (E2 := i_key s I _ _ Hm' _ _ _ Hy Hk2). congruence.
+    + rewrite Hmap in Hm. cbn [mget] in Hm.
+      assert (Hth' : forall k2 e2, mentions th' k2 e2 -> (k2 = k1 /\ e2 = length (s_ents (sh s))) \/ mentions th k2 e2).
+      { intros k2 e2 [H|[g Hg]].
+        - rewrite Hpc' in H. cbn in H. inversion H; subst. left; auto.
+        - right. right. exists g. rewrite <- Hpg'. exact Hg. }
+      destruct (Nat.eq_dec e (length (s_ents (sh s)))) as [->|Hne].
+      * destruct (k1 =? k) eqn:Ek; [apply Z.eqb_eq in Ek; subst k1|].
+        -- destruct (Hsplit _ _ Hx) as [->|Hx']; [|exfalso; eapply Hfresh; eauto].
+           destruct (Hth' _ _ Hmen) as [[? _]|Hmo]; [auto | exfalso; eapply Hfresh; eauto].
+        -- assert (H := i_mapwf s I _ _ Hm). lia.
+      * destruct (k1 =? k) eqn:Ek; [inversion Hm; congruence|].
+        destruct (Hsplit _ _ Hx) as [->|Hx']; [|eapply (i_key s I); eauto].
+        destruct (Hth' _ _ Hmen) as [[_ ?]|Hmo]; [congruence | eapply (i_key s I); eauto].
+    + rewrite Hmap in Hm. destruct (Z.eq_dec k k1) as [->|Hne]; [rewrite mget_mrem_same in Hm; discriminate|].
+      rewrite (mget_mrem_other _ _ _ Hne) in Hm.
+      destruct (Hsplit _ _ Hx) as [->|Hx']; [|eapply (i_key s I); eauto].
+      destruct (step_mentions _ _ _ _ _ Hstep _ _ Hmen) as [Hm'|(w & _ & Hk & _)]; [eapply (i_key s I); eauto|].
+      rewrite Hpc in Hk. cbn in Hk. discriminate.
+  - (* i_live *)
+    intros k e Hm.
+    assert (Hnodrop : forall i, (forall k2, th_pc th <> PUnl k2 i) -> e_ref (eget (s_ents sh') i) >= e_ref (eget (s_ents (sh s)) i)).
+    { intros i Hn. destruct (Z_lt_ge_dec (e_ref (eget (s_ents sh') i)) (e_ref (eget (s_ents (sh s)) i))) as [Hlt|]; [|lia].
+      destruct (step_ref_drop _ _ _ _ _ i Hstep Hlt) as (k2 & Hp & _). exfalso; eapply Hn; eauto. }
+    destruct HME as [Hmap _ Hcl | w k1 Hnone Hmap _ Hents Hpc' Hpg' Hpk | k1 e1 Hpc _ Hmap _ _].
+    + rewrite Hmap in Hm. destruct (i_live s I _ _ Hm) as [Hpos|(v & y & Hy & Hc)].
+      * destruct (Z_lt_ge_dec (e_ref (eget (s_ents sh') e)) (e_ref (eget (s_ents (sh s)) e))) as [Hlt|]; [|left; lia].
+        destruct (step_ref_drop _ _ _ _ _ e Hstep Hlt) as (k2 & Hp & Hone & Hge).
+        assert (k2 = k) by (eapply (i_key s I); eauto; left; rewrite Hp; reflexivity). subst k2.
+        destruct (Z.eq_dec (e_ref (eget (s_ents (sh s)) e)) 1) as [E1|E1].
+        -- right. exists t, th'. split; auto.
+        -- left. lia.
+      * destruct (Hkeep _ _ Hy) as [->|Hy']; [|right; exists v, y; auto].
+        left. assert (Hge : e_ref (eget (s_ents sh') e) >= e_ref (eget (s_ents (sh s)) e))
+          by (apply Hnodrop; intros k2; rewrite Hc; discriminate).
+        destruct (Hcl _ _ Hc) as [Hnz|[_ Hnm]]; [|congruence].
+        assert (H0 := i_ref s I e). lia.
+    + rewrite Hmap in Hm. cbn [mget] in Hm. destruct (k1 =? k) eqn:Ek.
+      * inversion Hm; subst e. left. rewrite Hents, eget_app_new. cbn. lia.
+      * assert (Hlt := i_mapwf s I _ _ Hm). rewrite Hents, (eget_app_old _ _ _ Hlt).
+        destruct (i_live s I _ _ Hm) as [Hpos|(v & y & Hy & Hc)]; [left; exact Hpos|].
+        right. destruct (Hkeep _ _ Hy) as [->|Hy']; [rewrite Hc in Hpk; cbn in Hpk; discriminate|].
+        exists v, y; auto.
+    + rewrite Hmap in Hm. destruct (Z.eq_dec k k1) as [->|Hne]; [rewrite mget_mrem_same in Hm; discriminate|].
+      rewrite (mget_mrem_other _ _ _ Hne) in Hm.
+      destruct (i_live s I _ _ Hm) as [Hpos|(v & y & Hy & Hc)].
+      * left. assert (Hge : e_ref (eget (s_ents sh') e) >= e_ref (eget (s_ents (sh s)) e))
+          by (apply Hnodrop; intros k2; rewrite Hpc; discriminate). lia.
+      * right. destruct (Hkeep _ _ Hy) as [->|Hy']; [congruence|]. exists v, y; auto.
+  - (* i_coh *)
+    intros Hbad u x k e Hx Hc.
+    destruct HME as [Hmap Hb _ | w k1 Hnone Hmap Hb Hents Hpc' Hpg' Hpk | k1 e1 Hpc _ Hmap _ Hb].
+    + rewrite Hb in Hbad. rewrite Hmap.
+      destruct (Hsplit _ _ Hx) as [->|Hx']; [|eapply (i_coh s I); eauto].
+      destruct (step_cohref _ _ _ _ _ Hstep _ _ Hc) as [Hc'|(w & _ & _ & Hm')]; [eapply (i_coh s I); eauto|].
+      rewrite Hmap in Hm'. exact Hm'.
+    + rewrite Hb in Hbad.
+      assert (Hold : forall u x, In (u, x) (ths s) -> cohref x k e -> mget k (s_map sh') = Some e).
+      { intros v y Hy Hcy. assert (Hm := i_coh s I Hbad _ _ _ _ Hy Hcy). rewrite Hmap. cbn [mget].
+        destruct (k1 =? k) eqn:Ek; [apply Z.eqb_eq in Ek; congruence | exact Hm]. }
+      destruct (Hsplit _ _ Hx) as [->|Hx']; [|eauto].
+      destruct (step_cohref _ _ _ _ _ Hstep _ _ Hc) as [Hc'|(w' & _ & _ & Hm')]; [eauto | exact Hm'].
+    + destruct (Hb Hbad) as (Hb0 & Hdead).
+      assert (Hold : forall u x, In (u, x) (ths s) -> cohref x k e -> mget k (s_map sh') = Some e).
+      { intros v y Hy Hcy. assert (Hm := i_coh s I Hb0 _ _ _ _ Hy Hcy). rewrite Hmap.
+        destruct (Z.eq_dec k k1) as [->|Hne]; [|rewrite (mget_mrem_other _ _ _ Hne); exact Hm].
+        exfalso. assert (H0 := Hdead _ Hm).
+        assert (H1 := ref_pos_of_thread _ _ _ _ I Hy (cohref_ref _ _ _ Hcy)). lia. }
+      destruct (Hsplit _ _ Hx) as [->|Hx']; [|eauto].
+      destruct (step_cohref _ _ _ _ _ Hstep _ _ Hc) as [Hc'|(w' & _ & Hk & _)]; [eauto|].
+      rewrite Hpc in Hk. cbn in Hk. discriminate.
+Qed.
+
+Theorem inv_reachable fx progs sched : Inv (run (step fx) sched (init progs)).
+Proof.
+  apply (invariant_rule St (step fx) Inv); [apply inv_init | intros t s s' I H; eapply step_inv; eauto].
+Qed.
